@@ -358,6 +358,35 @@ def configure_mid(lab):
     return plan(), d
 
 
+def configure_late(lab):
+    """A device is re-configured after events of its stream were saved since the last checkpoint; more events follow before the next one."""
+    from bluesky.utils import Msg
+
+    d = _std(lab)
+    det, m = d["det"], d["m1"]
+
+    def point(name="primary", *objs):
+        yield Msg("create", name=name)
+        for o in objs:
+            yield Msg("read", o)
+        yield Msg("save")
+
+    def plan():
+        yield Msg("open_run")
+        yield Msg("checkpoint")
+        yield from point("primary", det, m)
+        yield Msg("configure", det, 7)
+        yield from point("primary", det, m)
+        yield Msg("null", None, "window")
+        yield Msg("configure", det, 8)
+        yield from point("primary", det, m)
+        yield Msg("checkpoint")
+        yield from point("primary", det, m)
+        yield Msg("close_run")
+
+    return plan(), d
+
+
 def sparse(lab):
     """Checkpoints at irregular spacing, some inside a non-rewindable region, and a tail without any checkpoint."""
     from bluesky.utils import Msg
@@ -633,5 +662,5 @@ def clearing_prelude(lab):
     return [Msg("checkpoint"), Msg("clear_checkpoint"), Msg("null", None, "prelude")]
 
 
-CORPUS = dict(cleared_sleep=cleared_sleep, wait_move_on=wait_move_on, retry_close=retry_close, interleaved=interleaved, monitor_meta=monitor_meta, monitor_mid=monitor_mid, stubbed=stubbed, sparse=sparse, two_runs_cleared=two_runs_cleared, late_wait=late_wait, norewind_section=norewind_section, configure_mid=configure_mid, count_norewind=count_norewind, declared=declared, double_stage=double_stage, failpause=failpause, defer_failpause=defer_failpause, count2=count2, scan2=scan2, scan3=scan3, rel_scan2=rel_scan2, list_scan2=list_scan2, grid2x2=grid2x2, adaptive=adaptive, tune=tune,
+CORPUS = dict(configure_late=configure_late, cleared_sleep=cleared_sleep, wait_move_on=wait_move_on, retry_close=retry_close, interleaved=interleaved, monitor_meta=monitor_meta, monitor_mid=monitor_mid, stubbed=stubbed, sparse=sparse, two_runs_cleared=two_runs_cleared, late_wait=late_wait, norewind_section=norewind_section, configure_mid=configure_mid, count_norewind=count_norewind, declared=declared, double_stage=double_stage, failpause=failpause, defer_failpause=defer_failpause, count2=count2, scan2=scan2, scan3=scan3, rel_scan2=rel_scan2, list_scan2=list_scan2, grid2x2=grid2x2, adaptive=adaptive, tune=tune,
               fly1=fly1, bare=bare, cleanup=cleanup, staged_monitor=staged_monitor, nested_runs=nested_runs, flymon=flymon)
